@@ -420,8 +420,9 @@ impl<'a> ParserState<'a> {
             let prev_token = &self.token_cursor.tokens[prev_pos];
             let mut prev_line = prev_token.line;
             if prev_token.ttype == A2lTokenType::Comment && self.kept_comment_pos != Some(prev_pos) {
-                // only unstored comments precede this token: it is the first one that is written
-                prev_line = 1;
+                // only unstored comments precede this token: it is the first one that is written,
+                // whichever file the comments stand in
+                return self.token_cursor.tokens[self.token_cursor.pos - 1].line - 1;
             }
             if self.kept_comment_pos == Some(prev_pos) {
                 // a comment token carries the line on which it starts. If the comment is stored and
